@@ -27,7 +27,16 @@ GLUE_IO = [M_AF + "FileAnonymizer.anonymize_io"]
 # the command line hands every option to anonymize_files unchanged (lists split at commas, private blocks appended)
 GLUE_MAIN = [M_NC + "main"]
 GLUE = [M_AF + "FileAnonymizer.__init__", M_AF + "FileAnonymizer.anonymize_io", M_AF + "anonymize_files@impl"]
+GLUE_ALL = GLUE + GLUE_MAIN
 from contracts import cli as _cli        # noqa: E402
+
+def _dedupe(fs):
+    out = []
+    for f in fs:
+        if f not in out:
+            out.append(f)
+    return out
+
 
 PROPS = {
     "C01": dict(
@@ -60,7 +69,7 @@ PROPS = {
     "C03": dict(
         level="proof",
         lemmas=IP_LEMMAS,
-        functions=IP_CORE + IP_UNDO + IP_TEXT + GLUE_IO + [M_AF + "anonymize_files@impl"],
+        functions=IP_CORE + IP_UNDO + IP_TEXT + GLUE_IO + [M_AF + "anonymize_files@impl"] + GLUE_ALL,
         standins=[("rt_ip", "C03")],
         design_ref="7/C03",
         technique="class-invariant proof: WF established by constructors and preserved by every public method; "
@@ -105,7 +114,7 @@ PROPS = {
     "C17": dict(
         level="proof",
         lemmas=IP_LEMMAS,
-        functions=IP_CORE + IP_UNDO + IP_TEXT + IP_DUMP + GLUE_IO + [M_AF + "anonymize_files@impl"],
+        functions=IP_CORE + IP_UNDO + IP_TEXT + IP_DUMP + GLUE_IO + [M_AF + "anonymize_files@impl"] + GLUE_ALL,
         standins=[("rt_ip", "C17")],
         design_ref="7/C17",
         technique="contract on dump_to_file (loop invariant over the dict enumeration, ghost output stream) + WF "
@@ -122,7 +131,7 @@ PROPS = {
         lemmas=[],
         functions=[M_IP + "_anonymize_match@v4", M_IP + "_anonymize_match@v6",
                    M_IP + "anonymize_ip_addr@v4", M_IP + "anonymize_ip_addr@v6", M_IP + "IpAnonymizer.should_anonymize",
-                   M_IP + "IpAnonymizer._is_mask"] + GLUE_IO,
+                   M_IP + "IpAnonymizer._is_mask"] + GLUE_IO + GLUE_ALL,
         generators=[_ro.gen_ipv4, _ro.gen_ipv6],
         standins=[("rt_text", "C06")],
         design_ref="7/C06",
@@ -143,7 +152,7 @@ PROPS = {
         functions=[M_SI + "AsNumberAnonymizer._generate_as_number_replacement",
                    M_SI + "AsNumberAnonymizer.__init__",
                    M_SI + "AsNumberAnonymizer.anonymize",
-                   M_SI + "anonymize_as_numbers"] + GLUE_IO,
+                   M_SI + "anonymize_as_numbers"] + GLUE_IO + GLUE_ALL,
         generators=[_ro.gen_as_regex],
         standins=[("rt_text", "C11")],
         design_ref="7/C11",
@@ -182,7 +191,7 @@ PROPS = {
         level="other",
         lemmas=[],
         functions=[M_SI + "_anonymize_value", M_SI + "_check_sensitive_item_format", M_SI + "_extract_enclosing_text",
-                   M_SI + "replace_matching_item"] + GLUE_IO,
+                   M_SI + "replace_matching_item"] + GLUE_IO + GLUE_ALL,
         generators=[_ro.gen_catchall],
         standins=[("rt_files", "C07")],
         design_ref="7/C07",
@@ -205,7 +214,8 @@ PROPS = {
     "C08": dict(
         level="other",
         lemmas=[],
-        functions=[M_SI + "_anonymize_value", M_SI + "_extract_enclosing_text", M_SI + "replace_matching_item"] + GLUE,
+        functions=[M_SI + "_anonymize_value", M_SI + "_extract_enclosing_text", M_SI + "replace_matching_item"] + GLUE + GLUE_ALL,
+        generators=[_ro.gen_catchall],
         standins=[("rt_files", "C08")],
         design_ref="7/C08",
         technique="lookup contract of _anonymize_value (hit returns the stored replacement, entries never change, one "
@@ -225,7 +235,8 @@ PROPS = {
         level="other",
         lemmas=[],
         functions=[M_SI + "_check_sensitive_item_format", M_SI + "_anonymize_value", M_SI + "_extract_enclosing_text",
-                   M_SI + "replace_matching_item"] + GLUE_IO,
+                   M_SI + "replace_matching_item"] + GLUE_IO + GLUE_ALL,
+        generators=[_ro.gen_catchall],
         standins=[("rt_files", "C09")],
         design_ref="7/C09",
         technique="_check_sensitive_item_format proved equal to the class function of the statement (regular-language "
@@ -241,7 +252,7 @@ PROPS = {
     "C19": dict(
         level="other",
         lemmas=[],
-        functions=[M_NC + "main", M_NC + "host_bits"],
+        functions=[M_NC + "main", M_NC + "host_bits"] + GLUE_ALL,
         generators=[_cli.gen_parse_args_decl, _cli.gen_facade_covers_impl],
         standins=[("rt_files", "C19")],
         design_ref="7/C19",
@@ -269,7 +280,7 @@ PROPS = {
                    M_SI + "SensitiveWordAnonymizer._generate_conflicting_reserved_word_list",
                    M_SI + "SensitiveWordAnonymizer._generate_sensitive_word_regex",
                    M_SI + "SensitiveWordAnonymizer._get_or_generate_sensitive_word_replacement",
-                   M_SI + "SensitiveWordAnonymizer.anonymize"] + GLUE_IO,
+                   M_SI + "SensitiveWordAnonymizer.anonymize"] + GLUE_IO + GLUE_ALL,
         standins=[("rt_files", "C10")],
         design_ref="7/C10",
         technique="contracts on FileAnonymizer.__init__ (the word stage receives built-in + user reserved words, the "
@@ -291,7 +302,7 @@ PROPS = {
         level="other",
         lemmas=[],
         functions=[M_AF + "FileAnonymizer.anonymize_io", M_SI + "_split_line", M_SI + "_extract_enclosing_text",
-                   M_SI + "SensitiveWordAnonymizer.anonymize", M_SI + "replace_matching_item"],
+                   M_SI + "SensitiveWordAnonymizer.anonymize", M_SI + "replace_matching_item"] + GLUE_ALL + IP_TEXT + [M_SI + "anonymize_as_numbers", M_SI + "AsNumberAnonymizer.anonymize"],
         standins=[("rt_files", "C12")],
         design_ref="7/C12",
         technique="loop invariant + ghost call trace on anonymize_io (one write per input line, in order, each the "
@@ -313,7 +324,7 @@ PROPS = {
                    M_IP + "IpV6Anonymizer.__init__", M_SI + "_anonymize_value", M_SI + "_check_sensitive_item_format",
                    M_SI + "_extract_enclosing_text", M_SI + "AsNumberAnonymizer._generate_as_number_replacement",
                    M_JS + "juniper_nonrandom_encrypt", M_JS + "_gap_encode", M_AF + "FileAnonymizer.__init__",
-                   M_AF + "FileAnonymizer.anonymize_io", M_SI + "replace_matching_item", M_SI + "SensitiveWordAnonymizer.__init__", M_SI + "SensitiveWordAnonymizer._generate_sensitive_word_regex", M_SI + "SensitiveWordAnonymizer._get_or_generate_sensitive_word_replacement", M_SI + "AsNumberAnonymizer.__init__", M_AF + "anonymize_files@impl"],
+                   M_AF + "FileAnonymizer.anonymize_io", M_SI + "replace_matching_item", M_SI + "SensitiveWordAnonymizer.__init__", M_SI + "SensitiveWordAnonymizer._generate_sensitive_word_regex", M_SI + "SensitiveWordAnonymizer._get_or_generate_sensitive_word_replacement", M_SI + "AsNumberAnonymizer.__init__", M_AF + "anonymize_files@impl"] + GLUE_ALL,
         only=["#deterministic", "#frame", "post.2", "post.1"],
         standins=[("rt_files", "C13")],
         design_ref="7/C13",
@@ -337,7 +348,7 @@ PROPS = {
                    M_SI + "_anonymize_value", M_SI + "_extract_enclosing_text", M_SI + "_check_sensitive_item_format",
                    M_SI + "_split_line", M_SI + "AsNumberAnonymizer._generate_as_number_replacement",
                    M_JS + "juniper_nonrandom_encrypt", M_JS + "_gap_encode", M_JS + "_gap", M_JS + "_fixedc",
-                   M_AF + "FileAnonymizer.anonymize_io", M_SI + "replace_matching_item", M_SI + "SensitiveWordAnonymizer.__init__", M_SI + "SensitiveWordAnonymizer._generate_conflicting_reserved_word_list", M_SI + "SensitiveWordAnonymizer._generate_sensitive_word_regex", M_SI + "SensitiveWordAnonymizer._get_or_generate_sensitive_word_replacement", M_SI + "SensitiveWordAnonymizer.anonymize", M_SI + "AsNumberAnonymizer.__init__", M_SI + "AsNumberAnonymizer.anonymize", M_SI + "anonymize_as_numbers"],
+                   M_AF + "FileAnonymizer.anonymize_io", M_SI + "replace_matching_item", M_SI + "SensitiveWordAnonymizer.__init__", M_SI + "SensitiveWordAnonymizer._generate_conflicting_reserved_word_list", M_SI + "SensitiveWordAnonymizer._generate_sensitive_word_regex", M_SI + "SensitiveWordAnonymizer._get_or_generate_sensitive_word_replacement", M_SI + "SensitiveWordAnonymizer.anonymize", M_SI + "AsNumberAnonymizer.__init__", M_SI + "AsNumberAnonymizer.anonymize", M_SI + "anonymize_as_numbers"] + GLUE_ALL,
         generators=[_ro.gen_juniper_valid],
         only=["#safe", "#raises", "#call", "decreases", "returns_a_value", "#enc", "#unroll", "juniper.VALID#"],
         standins=[("rt_files", "C14")],
@@ -356,7 +367,7 @@ PROPS = {
     "C15": dict(
         level="proof",
         lemmas=[],
-        functions=[M_AF + "FileAnonymizer.__init__", M_AF + "FileAnonymizer.anonymize_io"],
+        functions=[M_AF + "FileAnonymizer.__init__", M_AF + "FileAnonymizer.anonymize_io"] + GLUE_ALL,
         standins=[("rt_files", "C15")],
         design_ref="7/C15",
         technique="contract on FileAnonymizer.__init__ (each stage configured from its own options and the common salt "
@@ -373,7 +384,7 @@ PROPS = {
         level="other",
         lemmas=[],
         functions=[M_AF + "FileAnonymizer.anonymize_io", M_AF + "FileAnonymizer.anonymize_file",
-                   M_AF + "anonymize_files@impl", M_NC + "main"],
+                   M_AF + "anonymize_files@impl", M_NC + "main"] + GLUE_ALL,
         generators=[_cli.gen_facade_covers_impl],
         standins=[("rt_files", "C16")],
         design_ref="7/C16",
@@ -398,3 +409,6 @@ PROPS = {
         note="E-os (os.path.*, os.walk, os.makedirs, open as uninterpreted observations with a ghost call record)",
     ),
 }
+
+for _p in PROPS.values():
+    _p["functions"] = _dedupe(_p["functions"])
